@@ -376,7 +376,7 @@ def canary(chk, binary, cases):
 
 def run(chk):
     chk.trusted = common.BASE_TRUSTED + [
-        "modelled: container/heap re-modelled from the Go 1.23 source (lib/Heap.v, checked every run against std.PriorityQueue and container/heap)",
+        "modelled: container/heap re-modelled from the Go 1.23 source (lib/Heap.v, checked every run against container/heap)",
         "modelled: math.Log / math/rand / float64 keys abstracted to their ORDER (model input = ranks of the reference keys recomputed by the harness from the replayed rand.Seed stream)",
         "statistical: P(i) = w_i/sum(w) for sampleNum = 1 is a fixed-seed 6-sigma frequency TEST, not a proof",
     ]
@@ -386,7 +386,7 @@ def run(chk):
     chk.cov["rule"] = ("cases = (seed, sampleNum, totalNum, weight vector); weight kinds: integers, 1e-3..1e-6, normalised probabilities, 1e-300, "
                        "subnormal, 1e300, max float, skewed over 600 orders of magnitude, equal; all (k,n) <= 8 (16 thorough) + random up to 64; "
                        "invalid (k,n); out-of-domain tie stream; non-trivial = returns normally with totalNum >= 3; distinct = distinct case line. "
-                       "Extra streams: Heap.v vs std.PriorityQueue / container/heap; k=1 frequency test")
+                       "Extra streams: Heap.v vs container/heap; k=1 frequency test")
     chk.run_proof_gate(PROOFS)
     binary = pure.build_pure(chk)
     if binary:
@@ -397,7 +397,8 @@ def run(chk):
             # canary on the corpus witnesses
             canary(chk, binary, cases[:len(corpus)])
             # Heap.v against the real heap implementations
-            hstreams = heapdiff.run(chk, binary)
+            # (std.PriorityQueue is not used by randx; its differential stream belongs to C10)
+            hstreams = heapdiff.run(chk, binary, which=("heapraw", "heapinit"))
             # frequency test (k = 1)
             sc = stat_cases(chk.rng.fork(), chk.tier)
             so = common.run_impl(binary, [c for c, _ in sc])
